@@ -10,6 +10,7 @@ Ghost invariant  REG:  state.unused_undroppable_objs == { o._id -> o | not dropp
 o._used is None }  — established by __init__, preserved by _use_wire.
 """
 import ast
+import json
 import z3
 
 from pyvc import SObj, ClassVal, Builtin, SBool, PyRaise, FlagVal
@@ -356,6 +357,36 @@ print(json.dumps({"violates": any(not v.startswith(want) for v in res.values()),
 '''
 
 
+REPLAY_MUTATORS = r'''
+import tempfile, importlib.util, os, sys, shutil
+from guppylang_internals.error import GuppyError, GuppyComptimeError
+MUTS = ["xs.append(1)", "xs.clear()", "xs.extend([1])", "xs.insert(0, 1)", "xs.pop()", "xs.remove(xs[0])", "xs.reverse()", "xs.sort()", "del xs[0]", "xs += [1]", "xs *= 2", "xs[0] = 5",
+        "xs[0:1] = [7]", "xs.__init__([xs[1], xs[0]])", "xs.__setitem__(0, 5)", "xs.__delitem__(0)", "xs.__iadd__([1])", "xs.__imul__(2)"]
+BASE = ["list.__init__(xs, [1, 2])", "list.append(xs, 1)", "list.__setitem__(xs, 0, 5)", "list.clear(xs)"]
+if INPUT.get("base"): MUTS = BASE
+src = "from guppylang import guppy\nfrom guppylang.std.builtins import array, owned\n" + "".join(
+    f"@guppy.comptime\ndef m{k}(xs: array[int, 2] @owned) -> None:\n    {mu}\n" for k, mu in enumerate(MUTS)) + \
+    "@guppy.comptime\ndef fine(xs: array[int, 2] @owned) -> int:\n    ys = xs.copy()\n    ys[0] = 5\n    ys.append(3)\n    return xs[0] + ys[0] + len(xs)\n"
+d = tempfile.mkdtemp(dir=os.environ.get("TMPDIR", "/var/tmp")); fn = os.path.join(d, "replay_c22m.py"); open(fn, "w").write(src)
+spec = importlib.util.spec_from_file_location("replay_c22m", fn); m = importlib.util.module_from_spec(spec); sys.modules["replay_c22m"] = m
+spec.loader.exec_module(m)
+bad = []
+for k, mu in enumerate(MUTS):
+    try:
+        getattr(m, f"m{k}").compile_function(); bad.append(mu + " -> compiled")
+    except (GuppyError, GuppyComptimeError):
+        pass
+    except Exception as ex:
+        bad.append(mu + " -> " + type(ex).__name__)
+try:
+    m.fine.compile_function()
+except Exception as ex:
+    bad.append("a mutable copy() of the argument is rejected: " + type(ex).__name__)
+shutil.rmtree(d, ignore_errors=True)
+print(json.dumps({"violates": bool(bad), "evaluations": len(MUTS) + 1, "witness": bad[:3] or None, "detail": bad and "; ".join(bad[:3])}))
+'''
+
+
 def run(chk):
     e = mk_engine(chk)
     for q in ("GuppyObject.__init__", "GuppyObject._use_wire", "GuppyStructObject.__init__", "GuppyStructObject.__setattr__"):
@@ -454,6 +485,18 @@ def run(chk):
         paths = e.explore(t)
         chk.prove_paths(f"frozenlist.{mname}:overridden/\\raises-GuppyComptimeError-on-every-path", paths,
                         lambda p: z3.BoolVal(p.kind == "raise" and p.raised(e, "GuppyComptimeError")), func=f"{FL}:frozenlist.{mname}")
+    # BOUNDED, native: every way CPython offers to change a list in place, applied to an owned array argument of a
+    # comptime function (the dunder calls written out explicitly as well) — each must be a Guppy error
+    from pyvc.report import run_replay
+    for base, label in ((False, "methods, operators, statements and explicit dunder calls incl. __init__"), (True, "unbound calls of the base class: list.append(xs, 1) etc.")):
+        res = run_replay(REPLAY_MUTATORS, {"base": base}, chk.repo, timeout=900)
+        if "evaluations" not in res:
+            chk.undecided(f"bounded:owned-argument-mutators[{label}]", "oracle run failed: " + json.dumps(res)[:500])
+            continue
+        o = chk.bounded_result(f"bounded:every-in-place-mutation-of-an-owned-array-argument-is-rejected({label})", not res.get("violates"),
+                               res["evaluations"], detail=res.get("detail") or f"{res['evaluations']} mutations rejected", witness=res.get("witness"), func=f"{FL}:frozenlist")
+        if res.get("violates"):
+            o.replay.update({"script": REPLAY_MUTATORS, "input": {"base": base}})
     cp = defined.get("copy")
     chk.record("frozenlist.copy:returns-a-fresh-plain-list", cp is not None and len(cp.body) == 1 and ast.unparse(cp.body[0]) == "return list(self)",
                ast.unparse(cp.body[0]) if cp else "missing", func=f"{FL}:frozenlist.copy", backend="structural")
